@@ -56,6 +56,9 @@ func c13Setup(t *testing.T) {
 			t.Fatal(err)
 		}
 		c13Files[i] = p
+		c13BadFiles[0] = filepath.Join(dir, "c13_does_not_exist.toml")
+		c13BadFiles[1] = filepath.Join(dir, "c13_malformed.toml")
+		os.WriteFile(c13BadFiles[1], []byte("[Networks]\n  [Networks.1\n Generation = \n"), 0o644)
 		for j := 0; j < 2; j++ {
 			_, n, _ := net.ParseCIDR(sp[j])
 			c13Nets[i][j] = n
@@ -64,17 +67,23 @@ func c13Setup(t *testing.T) {
 }
 
 // small scenarios for the systematic part: request kinds (0=v4, 1=v6, 2=dual) and number of reloads
+// reload kinds: 0 = valid file (alternating between the two sets), 1 = missing file, 2 = malformed file
 var c13Small = []struct {
 	reqs    []int
-	reloads int
+	reloads []int
 }{
-	{[]int{2}, 1},
-	{[]int{2, 0}, 1},
-	{[]int{2, 2}, 1},
-	{[]int{2}, 2},
-	{[]int{1, 0}, 1},
-	{[]int{2, 1}, 2},
+	{[]int{2}, []int{0}},
+	{[]int{2, 0}, []int{0}},
+	{[]int{2, 2}, []int{0}},
+	{[]int{2}, []int{0, 0}},
+	{[]int{1, 0}, []int{0}},
+	{[]int{2, 1}, []int{0, 0}},
+	{[]int{2}, []int{1}},
+	{[]int{2, 0}, []int{2, 0}},
+	{[]int{0}, []int{1, 1}},
 }
+
+var c13BadFiles [2]string
 
 func TestVerifC13(t *testing.T) {
 	if os.Getenv("VERIF_PROP") == "C13" {
@@ -109,22 +118,44 @@ func c13Scenario(r *sim.Run) {
 	s.Trace = func(l string) { r.Logf("step %s", l) }
 
 	var reqs []int
-	reloads := 0
+	var rkinds []int
 	if tp.Choose("mode", 2) == 1 {
 		sc := c13Small[tp.Choose("scn", len(c13Small))]
-		reqs, reloads = sc.reqs, sc.reloads
+		reqs, rkinds = sc.reqs, sc.reloads
 		s.MaxPreempt = 2
 	} else {
 		n := 1 + tp.Choose("nreq", 3)
 		for i := 0; i < n; i++ {
 			reqs = append(reqs, tp.Choose("kind", 3))
 		}
-		reloads = tp.Choose("nreload", 3)
+		nr := tp.Choose("nreload", 4)
+		for i := 0; i < nr; i++ {
+			rkinds = append(rkinds, []int{0, 0, 0, 1, 2}[tp.Choose("reloadkind", 5)])
+		}
 		if tp.Bool("staybias") {
 			s.StayNum, s.StayDen = 2, 3
 		}
 	}
-	r.Logf("C13 reqs=%v reloads=%d", reqs, reloads)
+	reloads := len(rkinds)
+	// The subnet file is named by a process-wide environment variable. When reloads of different
+	// kinds run concurrently, which file a particular reload reads depends on where the code reads
+	// the variable relative to its lock operations; per-reload outcomes are then don't-cares and
+	// only completion, old-or-new-in-full and continued service are judged.
+	mixedKinds := false
+	for _, k := range rkinds {
+		if k != rkinds[0] {
+			mixedKinds = true
+		}
+	}
+	goodReloads := 0
+	for _, k := range rkinds {
+		if k == 0 {
+			goodReloads++
+		} else {
+			r.Fault("reload/" + []string{"", "missing-file", "malformed-file"}[k])
+		}
+	}
+	r.Logf("C13 reqs=%v reloads=%v", reqs, rkinds)
 
 	os.Setenv("PHANTOM_SUBNET_LOCATION", c13Files[0])
 	sel, err := phantoms.GetPhantomSubnetSelector()
@@ -170,7 +201,12 @@ func c13Scenario(r *sim.Run) {
 	for j := 0; j < reloads; j++ {
 		j := j
 		s.Spawn(fmt.Sprintf("reload%d", j), func() {
-			os.Setenv("PHANTOM_SUBNET_LOCATION", c13Files[(j+1)%2])
+			switch rkinds[j] {
+			case 0:
+				os.Setenv("PHANTOM_SUBNET_LOCATION", c13Files[1])
+			default:
+				os.Setenv("PHANTOM_SUBNET_LOCATION", c13BadFiles[rkinds[j]-1])
+			}
 			reloadErr[j] = p.ReloadSubnets()
 			reloadDone[j] = true
 		})
@@ -231,26 +267,60 @@ func c13Scenario(r *sim.Run) {
 		}
 	}
 	for j := range reloadDone {
-		if !reloadDone[j] || reloadErr[j] != nil {
-			r.Fail("C13/reload-failed", "reload %d: done=%v err=%v", j, reloadDone[j], reloadErr[j])
+		if !reloadDone[j] {
+			r.Fail("C13/reload-not-finished", "reload %d did not complete", j)
+			return
+		}
+		if mixedKinds {
+			continue
+		}
+		if rkinds[j] == 0 && reloadErr[j] != nil {
+			r.Fail("C13/reload-failed", "reload %d of a valid file: err=%v", j, reloadErr[j])
+			return
+		}
+		if rkinds[j] != 0 && reloadErr[j] == nil {
+			r.Fail("C13/bad-reload-accepted", "reload %d of a missing/malformed file reported success", j)
 			return
 		}
 	}
 	if len(sock.msgs) != len(reqs) {
+		_ = reloads
 		r.Fail("C13/forward-count", "%d requests but %d messages forwarded to the stations", len(reqs), len(sock.msgs))
 		return
 	}
-	// a reload takes effect for later requests
-	if reloads == 1 {
-		s2 := hook.Install(tp)
-		_ = s2
+	// after everything completed: a further request and a further reload must still be served
+	// (a failed reload must not leave the registrar blocked), a successful reload is in force, a
+	// failed one changed nothing
+	want := 0
+	if goodReloads > 0 {
+		want = 1
+	}
+	s.Spawn("after.req", func() {
 		resp, err := p.RegisterBidirectional(mkReq(99, 2), pb.RegistrationSource_API, net.ParseIP("198.18.0.7").To4())
 		if err != nil || resp == nil {
-			r.Fail("C13/request-failed", "request after the reload: %v", err)
+			r.Fail("C13/request-failed", "request after the reloads: %v", err)
 			return
 		}
-		if which(uint32ToIPv4(resp.Ipv4Addr), 0) != 1 || which(net.IP(resp.Ipv6Addr), 1) != 1 {
-			r.Fail("C13/reload-lost", "a request issued after the only reload completed still used the old subnet set")
+		got4, got6 := which(uint32ToIPv4(resp.Ipv4Addr), 0), which(net.IP(resp.Ipv6Addr), 1)
+		if got4 != got6 || got4 < 0 {
+			r.Fail("C13/mixed-subnet-sets", "request after the reloads: IPv4 phantom from file %d, IPv6 from file %d", got4, got6)
+		} else if !mixedKinds && got4 != want {
+			if want == 1 {
+				r.Fail("C13/reload-lost", "a request issued after a successful reload completed still used the old subnet set")
+			} else {
+				r.Fail("C13/failed-reload-changed-selector", "only failing reloads ran, yet a later request did not use the original subnet set")
+			}
 		}
+		os.Setenv("PHANTOM_SUBNET_LOCATION", c13Files[want])
+		if err := p.ReloadSubnets(); err != nil {
+			r.Fail("C13/reload-failed", "reload after the scenario: %v", err)
+		}
+	})
+	switch st2 := sim.Drive(r, s, sim.DriveOpt{Horizon: 2 * time.Hour, MaxSteps: 2000}); st2 {
+	case sim.AllExited, sim.Failed:
+	case sim.Deadlock:
+		r.Fail("C13/blocked-after-reload", "a request/reload issued after the scenario completed is blocked for ever: %s", s.WaitForGraph())
+	default:
+		r.Fail("C13/blocked-after-reload", "a request/reload issued after the scenario completed did not finish (%v): %v", st2, s.LiveNames())
 	}
 }
